@@ -55,6 +55,14 @@ def _body(ch: Any) -> Tuple[bytes, str, Any]:
     if ch.flag(1, 5, 'body.corrupt') and info['shape'] in ('single', 'batch'):
         text, _ = S.corrupt_text(ch, text)
         kind = 'corrupted'
+    if ch.flag(1, 6, 'body.padded'):
+        # characters at the edges of the body: JSON white space, other Unicode white space / controls, a byte order mark
+        pad = ch.choice([' ', '\n', '\r\n\t ', '\ufeff', '\x0b', '\x0c', '\u00a0', '\u2028', '\x1c', '\u0085'], 'body.pad')
+        where = ch.choice(['front', 'back', 'both'], 'body.pad.where')
+        text = (pad if where != 'back' else '') + text + (pad if where != 'front' else '')
+        kind = 'padded'
+    if ch.flag(1, 12, 'body.blank'):
+        text, kind = ch.choice(['', ' ', '\n', '\ufeff', ' \r\n\t '], 'body.blank.text'), 'blank'
     body = text.encode('utf-8')
     if ch.flag(1, 6, 'body.non_utf8'):
         pos = ch.draw(len(body) + 1, 'body.pos')
